@@ -773,6 +773,19 @@ def sem_names(o, depth=0):
 
 def op_drop(op, oid, ctx):
     o = OBJS.pop(op["obj"], None)
+    if op.get("pre_unlink"):
+        # the names are removed behind the object's back first (user code calling sem_unlink, a /dev/shm reaper): the
+        # object's own disposal must cope and must still take the names off the tracker's books
+        import _multiprocessing
+
+        n_un = 0
+        for nm in sorted(OBJ_NAMES.get(op["obj"], ())):
+            try:
+                _multiprocessing.sem_unlink("/" + nm[len("sem."):] if nm.startswith("sem.") else nm)
+                n_un += 1
+            except OSError as e:
+                log("pre_unlink_error", name=nm, err=repr(e))
+        log("pre_unlinked", obj=op["obj"], n=n_un)
     # a used multiprocessing-style Queue is kept alive by its own feeder thread (bound-method
     # argument) until close(): releasing it properly means closing it, as with the stdlib's
     if o is not None and hasattr(o, "close") and hasattr(o, "put"):
